@@ -507,7 +507,14 @@ def fixed_cases(tier):
                              ("68HC12X", [" db nosuch", " align 6502,2"], []),
                              ("8086", ["x equ 1", "x equ 2", "x: nop"], ["-X"]),
                              ("z80", [" nop"], ["."]), ("NS32016", [' long "abc"'], []),
-                             ("KCPSM", [" load s0,abc)"], []), ("320C25", [' long "%s"' % ("x" * 200)], [])]:
+                             ("KCPSM", [" load s0,abc)"], []), ("320C25", [' long "%s"' % ("x" * 200)], []),
+                             ("z80", ["s struct", " save", "a db ?", " endstruct", " restore", " nop"], []),
+                             ("z80", ['s set "val(s)"', "x equ val(s)"], []),
+                             ("z80", ["f function x,f(x)+1", " db f(1)"], []),
+                             ("z80", [" page 60,80", " db 1 ;" + "x" * 3000, " db 2" + "\t" * 400 + ";y"], ["-L"]),
+                             ("z80", ["m macro", "\t" * 300 + "nop", " endm", " m"], []),
+                             ("z80", ["x equ 1e308*10.0-1e308*10.0", " jp fwd", "fwd: nop"], []),
+                             ("6809", [" assume dpr:$20", " cpu z80", " assume dpr:$20", " db assumedval(dpr)"], [])]:
         out.append(dict(kind="stmt", cpu=cpu, lines=lines, opts=opts))
     for n in corpus.names():
         out.append(dict(kind="mut", test=n, ops=[]))       # the unmodified golden programs under the sanitizers
